@@ -87,6 +87,11 @@ def durable_copy_rule(ctx, rid):
                 rens = [(n, c) for n, c, nm in calls if nm in RENAME]
                 tag = "%s engine=%s (%s), %s" % (f.name, eng, kind, newtxt)
                 if not saves and has_save:
+                    from ..util import callee_func as _cf10
+                    for n_, c_, nm_ in calls:
+                        h_ = _cf10(ctx, f, c_)
+                        if h_ is not None and hasattr(h_, "node") and h_ is not f and any(nm2 == saver for _, _, nm2 in all_calls(ctx, h_)):
+                            raise AnalysisError("idiom changed: %s leaves the write to its helper `%s` (%s), which the per-engine path analysis does not read through" % (f.qualname, h_.name, tag))
                     rr.bad(ctx.finding(rid, f, f.node, "%s: nothing is saved" % tag, construct="no-save " + eng, path=tag), tag)
                     continue
                 finals = set()
